@@ -105,6 +105,8 @@ class Vocab(object):
         too coarsely) only shows when the same compound comes back with other arguments."""
         if pool is not None and pool and rng.random() < 0.6:
             return rng.choice(pool)
+        if rng.random() < 0.04:
+            return rng.choice(["Xx2O", "Fe{9+}O", "H2O)", "Fe[400]2O3", "Og3"])   # a failing operation
         s = self._formula(rng, xray_ok, natural_only)
         if pool is not None and len(pool) < 4:
             pool.append(s)
